@@ -597,7 +597,7 @@ Proof.
   split.
   - destruct (res_eqb (res_of_code code) (of_bool (spec_req (lookup tbl) ss))); [discriminate|].
     destruct (sat (res_of_code code) (spec_req (lookup tbl) ss)); [discriminate|].
-    rewrite C. discriminate.
+    try rewrite C; discriminate.
   - intros ->. destruct (of_bool (spec_req (lookup tbl) ss)); reflexivity.
 Qed.
 
